@@ -18,8 +18,9 @@ STUB = ["SIGINT delivery: KeyboardInterrupt raised from the sys.settrace step cl
         "sys.stdout: counting sink for Election.prog progress dots",
         "the ballot file behind path= in driver mode: SimFS (fault-free here)"]
 
-RULE_TEXT = ("cases: seeded generated elections (2-12 candidates, all 11 rules cycled by case index, option grid of "
-             "DESIGN 4.3); per case SIGINT is injected at every line event of package code inside Election.count() "
+RULE_TEXT = ("cases: chosen from a pool of 3x as many seeded generated elections (2-14 candidates, all 11 rules cycled by "
+             "case index, option grid of DESIGN 4.3): those whose uninterrupted count executes package lines no earlier "
+             "candidate executed (at most a third of the cases), then the first ones in index order; per case SIGINT is injected at every line event of package code inside Election.count() "
              "when T <= exh_cap, else at every event up to the end of the header fill + 50, around every action "
              "append, at every distinct executed line, in the last 30 events and on a stratified sample; plus "
              "opcode-level injections inside ElectionRecord._fill/action and Droop.main driver runs on a fraction "
@@ -27,6 +28,14 @@ RULE_TEXT = ("cases: seeded generated elections (2-12 candidates, all 11 rules c
              "(rule, file:line at the instant, header state absent/partial/complete, inside-action-builder flag); "
              "it is non-trivial when the interrupt arrived strictly before the 'end' action was logged; "
              "distinct_nontrivial = number of distinct such keys.")
+
+
+POOL = {'quick': 3, 'thorough': 3}
+
+
+def _probe(task):
+    R, seed, idxs, tier = task
+    return [c19.probe_case(R, seed, i, tier) for i in idxs]
 
 
 def _work(task):
@@ -43,7 +52,17 @@ def run(R, tier, seed):
     if warm <= 0:
         raise core.HarnessError("opcode warm-up saw zero events")
     n = int(os.environ.get('VERIF_C19_CASES', NCASES[tier]))
-    tasks = [(R, seed, i, tier) for i in range(n)]
+    # candidate pool: POOL*n generated cases are looked at cheaply (reference run only); the n cases to explore are
+    # those that reach package lines the others do not, plus the first ones in index order
+    pool = POOL[tier] * n
+    chunks = [(R, seed, list(range(c, pool, 64)), tier) for c in range(64)]
+    probes = sorted((p for ch in core.fork_map(_probe, chunks, timeout=CASE_TIMEOUT[tier], what='C19 pool chunk')
+                     for p in ch), key=lambda p: p['idx'])
+    chosen, novel = c19.select_cases(probes, n)
+    pool_lines = set()
+    for p in probes:
+        pool_lines |= p['lines']
+    tasks = [(R, seed, i, tier) for i in chosen]
     results = core.fork_map(_work, tasks, timeout=CASE_TIMEOUT[tier], what='C19 case')
 
     execs = steps = explored = exhaustive = 0
@@ -124,6 +143,8 @@ def run(R, tier, seed):
         rule=RULE_TEXT,
         samples=samples,
         exhaustive=False,
+        candidate_pool=pool, cases_chosen_for_new_line_coverage=len(novel),
+        package_lines_executed_by_pool=len(pool_lines),
         cases=len(results), cases_explored=explored, cases_exhaustive_at_line_level=exhaustive,
         unexplored=unexplored,
         per_rule=per_rule,
